@@ -369,7 +369,7 @@ Lemma filter_of_inst_mark r m h h' l : h' <> h ->
   filter (of_inst h') (map (mark_sel r m (Some h)) l) = filter (of_inst h') l.
 Proof.
   intros Hne. induction l as [|s t IH]; cbn [map filter]; [reflexivity|]. rewrite IH.
-  unfold mark_sel at 1. destruct (sel r m (Some h) s) eqn:Es; [|reflexivity].
+  unfold mark_sel. destruct (sel r m (Some h) s) eqn:Es; [|reflexivity].
   apply sel_inst in Es. unfold of_inst. cbn [mark_read s_inst]. rewrite Es.
   assert (E : (h =? h') = false) by (apply Z.eqb_neq; congruence). now rewrite E.
 Qed.
@@ -404,7 +404,8 @@ Proof.
       destruct take; [now apply filter_of_inst_unsel|now apply filter_of_inst_mark].
     + rewrite mark_viewed_all_memZ. apply (find_inst_mark_other h); [exact Hne|].
       intros x Hx. apply in_map_iff in Hx. destruct Hx as (s & <- & Hs).
-      pose proof (collected_sel r max m (Some h)) as F. rewrite Forall_forall in F. now apply sel_inst in Hs; [|apply F].
+      pose proof (collected_sel r max m (Some h)) as F. rewrite Forall_forall in F.
+      exact (sel_inst r m h s (F s Hs)).
   - rewrite collect_bad_parameter; [split; reflexivity|]. cbn. rewrite Ef. intros H; now apply H.
 Qed.
 
